@@ -71,7 +71,7 @@ check("C14",
       "materialized by the repository's pipeline with optimization on and off: blocks have the requested sizes and the values "
       "are those of the un-rechunked program.",
       "Trusted: z3, symx shims, recorders standing in for expression constructors (listed in evidence.stubs). Outside: "
-      "balance=True (dropped inside pushdowns, restored by the root pin), p2p, the planner (C15), more blocks than the bound.",
+      "balance=True on symbolic sizes (decided on concrete size lists only: the balanced target is advertised and kept through elemwise / transpose / expand_dims pushdowns and rechunk fusion), p2p, the planner (C15), more blocks than the bound.",
       "DESIGN.md 6 C14")
 
 check("C15",
